@@ -8,15 +8,25 @@ from vlib import Check
 BOOL_KINDS = ["bdd", "bcdd", "zbdd"]
 
 
+DRIVER_JOBS = int(os.environ.get("VERIF_DRIVER_JOBS", "6"))
+
+
 def _bool_suite(ck, acts, plan, features="idx,cache,mt", module="TraceManager"):
     """run drivers of `plan` = [(driver, args)], validate every trace chunk
     with TLC under the active obligations `acts`"""
     binary = vlib.build_harness(features)
     files = []
     cmds = []
-    for i, (drv, args) in enumerate(plan):
+    # the drivers are independent processes with output directories of their own: run them side by side
+    import concurrent.futures as cf
+
+    def run(item):
+        i, (drv, args) = item
         od = os.path.join(ck.outdir, "%02d-%s-%s" % (i, drv, args.get("kind", "")))
-        res = vlib.run_driver(binary, drv, args, od)
+        return vlib.run_driver(binary, drv, args, od, timeout=3600)
+    with cf.ThreadPoolExecutor(max_workers=DRIVER_JOBS) as ex:
+        results = list(ex.map(run, enumerate(plan)))
+    for res in results:
         ck._summaries = getattr(ck, "_summaries", []) + res["summaries"]
         fs = ck.add_driver(res)
         files += fs
@@ -129,6 +139,7 @@ def c05(ck, tier, seed):
     import chk_mv
     for drv in ["mtbdd", "tdd"]:
         chk_mv._run(ck, drv, ["C05"], tier, seed + 7)
+    slotalloc_mc(ck, tier)
     # beyond the property: the collector thread protocol (GcThread.tla, repaired variant) and, for information, the
     # replay of its counterexample schedule on the real manager (threads still alive after dropping managers)
     for cfg in ["MC_GcThread_quitcheck1", "MC_GcThread_quitcheck_seq3"]:
@@ -182,6 +193,20 @@ def _bubble_binding(ck, files):
 
 
 LEVELSWAP_CFGS = ["bdd0", "bdd1", "zbdd0", "zbdd1", "bdd0_dead", "bdd1_dead", "zbdd0_dead", "zbdd1_dead"]
+
+
+def slotalloc_mc(ck, tier):
+    """design level: SlotAlloc.tla, the node slot allocation protocol of oxidd-manager-index (thread-local free lists
+    and chunks, shared stack of lists, session guards, hand-back by the collector): FreeListsSound, Disjoint,
+    ChunksOwned, CapacityRestored, CountExact for two application threads and the collector, 5 slots, chunks of 2.
+    Two defective variants (seeds C05-localstate-leak, C07-bggc-stale-head) must be rejected; with a dedicated pool
+    worker that allocates, CapacityRestored is violated: the recorded finding C14 retry.ok:*:mt at the design level."""
+    res = vlib.model_check("SlotAlloc", "MC_SlotAlloc_app", workers=4, xmx="3g", timeout=1200)
+    ck.add_mc(res, must_cover=["SessionBegin", "AddNode", "FreeSlot", "SessionEnd", "HandBack"])
+    for neg, inv in [("neg_guard", "CapacityRestored"), ("neg_head", "Disjoint"), ("workers", "CapacityRestored")]:
+        r = vlib.model_check("SlotAlloc", "MC_SlotAlloc_" + neg, workers=2, xmx="2g", timeout=600, coverage=False)
+        if r["ok"] or inv not in (r["violated"] or ""):
+            ck.tool_errors.append("vacuity: MC_SlotAlloc_%s is expected to violate %s" % (neg, inv))
 
 
 def levelswap_mc(ck, tier):
